@@ -418,6 +418,8 @@ class History:
         self.g = cartgen.make_game(self.mem)
         self.m = Model(self.mem)
         self.ops = []
+        # a second cart made from the first with Section.from_bytes(other.to_bytes()): no edit addresses it
+        self.twin = twin_of(self.g)
 
     def reset(self):
         """Back to the initial memory (same as a fresh History(seed), without rebuilding the Game)."""
@@ -459,6 +461,25 @@ class History:
                                 % (where, len(diff), '; '.join(describe_diff(rname, i, mr[i], r[i])
                                                                for i in diff[:3])),
                                 self.case(), 'frame')
+        if name.startswith(('set_', 'clear_', 'reset_', 'sfx_set', 'music_set')) and cartgen.flat(self.twin) != bytes(self.mem):
+            raise Violation('%s on one cart changed the memory of a second cart made from it beforehand with '
+                            'Section.from_bytes(section.to_bytes())' % where, self.case(), 'other-cart')
+
+
+def twin_of(g):
+    from pico8.game import game as game_mod
+    from pico8.gfx.gfx import Gfx
+    from pico8.gff.gff import Gff
+    from pico8.map.map import Map
+    from pico8.sfx.sfx import Sfx
+    from pico8.music.music import Music
+    c = game_mod.Game.make_empty_game()
+    c.gfx = Gfx.from_bytes(g.gfx.to_bytes(), version=8)
+    c.map = Map.from_bytes(g.map.to_bytes(), version=8, gfx=c.gfx)
+    c.gff = Gff.from_bytes(g.gff.to_bytes(), version=8)
+    c.music = Music.from_bytes(g.music.to_bytes(), version=8)
+    c.sfx = Sfx.from_bytes(g.sfx.to_bytes(), version=8)
+    return c
 
 
 def _short(v, limit=160):
